@@ -98,9 +98,19 @@ func domValset(env *Env) error {
 	for hi := 0; hi < n; hi++ {
 		cfg := DefaultCfg(env.Report.Seed*1000 + uint64(hi))
 		nGen := rng.Range(1, 5)
+		// "large population" histories (about one in five): 14-20 operators, most of them in
+		// one big tie group (equal power), a few with a lower / higher power at low and high
+		// addresses, MaxValidators cutting through the tie group. Go's sort.Slice switches from
+		// insertion sort to pdqsort above 12 elements, and the tie-break only matters when the
+		// cap falls inside a tie group.
+		big := rng.Chance(1, 5)
 		cfg.NOperators = nGen
 		cfg.Powers = nil
 		for i := 0; i < nGen; i++ {
+			if big {
+				cfg.Powers = append(cfg.Powers, 100)
+				continue
+			}
 			cfg.Powers = append(cfg.Powers, []int64{100, 100, 101, 150, 200, 1000, int64(rng.Range(100, 300))}[rng.Intn(7)])
 		}
 		cfg.EpochID = []string{epochstypes.MinuteEpochID, epochstypes.HourEpochID, epochstypes.DayEpochID}[rng.Intn(3)]
@@ -110,6 +120,10 @@ func domValset(env *Env) error {
 		nOps := nGen + rng.Range(1, 4)
 		if nOps > 8 {
 			nOps = 8
+		}
+		if big {
+			nOps = rng.Range(14, 20)
+			cfg.MinSelfDelegation = 1
 		}
 		w := NewWorld(cfg, nOps, nOps+4)
 		c := w.C
@@ -131,20 +145,37 @@ func domValset(env *Env) error {
 		held := map[string]int64{} // staker|op -> base units delegated through the harness
 		minBase := cfg.MinSelfDelegation * 1_000_000
 		for op := range w.Ops {
-			if w.Reg[op] || rng.Chance(1, 4) {
+			if w.Reg[op] || (!big && rng.Chance(1, 4)) {
 				continue
 			}
 			if w.Register(op) != nil {
 				continue
 			}
 			amt := []int64{minBase, minBase + 1, minBase - 1 + 1_000_000, minBase + 500_000, 150_000_000, 100_000_000, minBase * 2}[rng.Intn(7)]
+			if big { // the tie group at 100, outliers below and above it spread over the address range
+				amt = []int64{100_000_000, 100_000_000, 100_000_000, 100_000_000, 100_000_000, 100_000_000, 50_000_000, 99_999_999, 150_000_000, 100_999_999}[rng.Intn(10)]
+			}
 			if amt < 1 {
 				amt = 1
 			}
 			if w.DepositDelegate(w.Ops[op].Eth, op, sdkmath.NewInt(amt), true) == nil {
 				held[fmt.Sprintf("%s|%d", w.Ops[op].Eth, op)] += amt
 			}
-			env.Outcome("setup-optin=" + errClass(w.OptIn(op, rng.Intn(len(w.Keys)))))
+			key := rng.Intn(len(w.Keys))
+			if big { // a key nobody has, so that (nearly) everybody becomes a candidate
+				for k := range w.Keys {
+					if w.RevOp(c.Ctx, k) < 0 {
+						key = k
+						break
+					}
+				}
+			}
+			env.Outcome("setup-optin=" + errClass(w.OptIn(op, key)))
+		}
+		if big { // the cap falls inside the tie group
+			mv := uint32(rng.Range(3, len(w.Ops)-3))
+			w.SetDogfoodParams(func(p *dogfoodtypes.Params) { p.MaxValidators = mv })
+			env.Outcome("big-population")
 		}
 		nEpochs := rng.Range(3, maxEpochs)
 		epochsDone, changes := 0, 0
@@ -233,7 +264,7 @@ func domValset(env *Env) error {
 					}
 				case 6: // change the maximum
 					mv := uint32(rng.Range(1, len(w.Ops)+1))
-					if rng.Bool() {
+					if rng.Bool() && !big {
 						mv = uint32(rng.Range(1, 3))
 					}
 					w.SetDogfoodParams(func(p *dogfoodtypes.Params) { p.MaxValidators = mv })
@@ -376,7 +407,10 @@ func domValset(env *Env) error {
 						ties = true
 					}
 				}
+				// does the cap cut through a tie group? (then the address tie-break decides who validates)
+				cut := int(maxVals) < len(srt) && int(maxVals) > 0 && srt[maxVals-1].power == srt[maxVals].power && srt[maxVals].power >= 1
 				env.Outcome(fmt.Sprintf("epoch:cands=%d,max=%d,ties=%v,over=%v,changed=%v", len(cands), maxVals, ties, len(cands) > int(maxVals), fmtIntMap(prevStored) != fmtIntMap(stored)))
+				env.Note(fmt.Sprintf("population:cands>12=%v,cap-inside-tie-group=%v", len(cands) > 12, cut))
 			} else if fmtIntMap(prevStored) != fmtIntMap(stored) || !prevTotal.Equal(sk.GetLastTotalPower(c.Ctx)) {
 				env.Violate("C06.agree", "nonepoch-change", "validator set or total power changed in a block that does not close an epoch", hist)
 			}
